@@ -22,6 +22,7 @@ LEVEL_TEXT = ("All five classes x {class loader, module-level load()} x {shared_
 LEVEL_NOTE = "equality is judged on the documented public state; private caches are exercised through query() only"
 BUDGET = {"quick": 75, "thorough": 300}
 SHARDS = {"quick": 1, "thorough": 16}
+BOUNDSCHECK = True
 SHM_LEAK_IS_VIOLATION = False
 
 
